@@ -321,7 +321,9 @@ def run(ctx):
             with fam.lock:
                 fam.distinct.add(hash((u.name, l)))
             codes = dict(p.split("=") for p in o[3:].split(" "))
-            if codes.get("s:js") in ("readerr", "readerr2") and codes.get("b:js") == codes.get("s:js"):
+            if codes.get("s:js") in ("readerr", "readerr2", "rt") and codes.get("b:js") == codes.get("s:js"):
+                # the JSON of this content is not re-readable / not reproduced by EITHER variant in the same way: a JSON round-trip
+                # matter (C05's subject and findings), not a disagreement between the variants
                 fam.add(json_not_rereadable_by_either_variant_left_to_C05=1)
                 codes.pop("s:js"), codes.pop("b:js")
             for vf, c in codes.items():
